@@ -35,6 +35,13 @@ Decided:
   R08.i  an HTTPException keeps its own status when it is non-breaking: the errors recorded while later routes were
          tried win over the null route's own 405 / 404 (the sentinel returns a recorded error whenever there is one; its
          405 and 404 are built only when none was recorded).
+  R08.j  before dispatch is entered (``_dispatch_wsgi``, where no error handler is in charge yet) every store / delete on
+         the request object -- an instance of the configurable request type, which may refuse assignment -- sits in a try
+         whose handler for Exception lets nothing out, or runs only after such a contained store on the same object has
+         completed (the ``else`` of that try) and is never reached through the handler;
+  R08.k  the keywords the framework passes when it builds an error from one of the handler's ``*_type`` slots are accepted
+         by every HTTPException class a handler of the family puts into that slot: along the constructors of the MRO each
+         is declared or popped, or ends in a ** mapping nobody checks -- never at a constructor that refuses it.
 Declined: exceptions raised by other primitive operations outside the protected region (arithmetic,
 indexing, attribute access on werkzeug objects); completeness of werkzeug's response objects.
 """
@@ -473,9 +480,21 @@ def run(rep):
         from .bodytext import check_total_body_encoding
         check_total_body_encoding(rep, 'R08.h')
 
+    def boundary_rules():
+        # ---- R08.j -----------------------------------------------------------
+        rep.rule('R08.j', 'before dispatch is entered nothing is stored on the request object -- an instance of the configurable request '
+                          'type, which may refuse assignment -- outside a handler, except after such a store has been seen to succeed')
+        check_boundary_stores(rep, 'R08.j')
+
+    def constructor_keyword_rules():
+        # ---- R08.k -----------------------------------------------------------
+        rep.rule('R08.k', 'every keyword the framework passes when it builds an error from a handler\'s *_type slot is accepted by every '
+                          'class a handler of the family puts into that slot (declared / popped along the MRO, never refused)')
+        check_error_constructor_keywords(rep, 'R08.k')
+
     # each group is analysed on its own: a construct one group cannot follow does not hide the verdicts of the others
     for group in (dispatch_rules, reraise_rules, store_rules, serialiser_rules, converter_rules, decoding_rules, deferred_error_rules,
-                  body_encoding_rules):
+                  body_encoding_rules, boundary_rules, constructor_keyword_rules):
         run_group(rep, group)
 
 
@@ -1255,3 +1274,228 @@ def check_no_shared_store(rep, rule, rp=None):
            'dynamic roots: %s' % (len([x for x in rp.reach if not x.mod.external]), n_funcs,
                                   sorted(set(r for _, r in rp.dynamic_roots))[:4]))
     rep.floor(rule, 20)
+
+
+# ---------------------------------------------------------------------------------------------- R08.j: before dispatch is entered
+def check_boundary_stores(rep, rule):
+    """Between the WSGI entry point and the call of dispatch no error handler is in charge yet: whatever raises there reaches
+    the WSGI server.  The request object is an instance of the application's configurable request type, which may refuse
+    assignment (read-only properties, slots, a ``__setattr__`` of its own) -- so every attribute / item store or delete on
+    it in that stretch is *contained*: it sits in the body of a ``try`` whose handler for Exception lets nothing out, or it
+    runs only when such a contained store on the same object has completed (the ``else`` of that try, or further down its
+    body) and is never reached through the handler."""
+    from ..astutil import names_stored
+    repo = rep.repo
+    app = repo.mod(APP)
+    dw = app.func('Application._dispatch_wsgi')
+    dc = [c for c in walk_body(dw.node) if isinstance(c, ast.Call) and norm(c.func) == 'self.dispatch']
+    if len(dc) != 1 or not dc[0].args or not isinstance(dc[0].args[0], ast.Name):
+        raise AnalysisError('_dispatch_wsgi: the request handed to self.dispatch(...) is not a plain local')
+    names = {dc[0].args[0].id}
+    grew = True
+    while grew:
+        grew = False
+        for s in stmts_of(dw.node):
+            if isinstance(s, ast.Assign) and len(s.targets) == 1 and isinstance(s.targets[0], ast.Name) and isinstance(s.value, ast.Name) and \
+                    s.value.id in names and s.targets[0].id not in names:
+                names.add(s.targets[0].id)
+                grew = True
+
+    def on_request(t):
+        while isinstance(t, (ast.Attribute, ast.Subscript)):
+            t = t.value
+            if isinstance(t, ast.Name):
+                return t.id in names
+        return False
+
+    def flat(ts):
+        for t in ts:
+            if isinstance(t, (ast.Tuple, ast.List)):
+                for x in flat(t.elts):
+                    yield x
+            elif isinstance(t, ast.Starred):
+                for x in flat([t.value]):
+                    yield x
+            else:
+                yield t
+    stores = []
+    for s in stmts_of(dw.node):
+        ts = []
+        if isinstance(s, ast.Assign):
+            ts = list(flat(s.targets))
+        elif isinstance(s, (ast.AugAssign, ast.AnnAssign)):
+            ts = [s.target] if getattr(s, 'value', None) is not None else []
+        elif isinstance(s, ast.Delete):
+            ts = list(flat(s.targets))
+        elif isinstance(s, (ast.For, ast.AsyncFor)):
+            ts = list(flat([s.target]))
+        elif isinstance(s, (ast.With, ast.AsyncWith)):
+            ts = list(flat([i.optional_vars for i in s.items if i.optional_vars is not None]))
+        hit = [t for t in ts if on_request(t)]
+        if not hit and isinstance(s, ast.Expr) and isinstance(s.value, ast.Call) and call_name(s.value) in ('setattr', 'delattr') and \
+                s.value.args and isinstance(s.value.args[0], ast.Name) and s.value.args[0].id in names:
+            hit = [s.value]
+        for t in hit:
+            stores.append((s, t))
+    cfg = cfg_of(dw)
+    disp = cfg.nodes_of(stmt_of(app, dc[0]))
+    contained = {}
+    for s, t in stores:
+        h = protected_by(dw, s, 'Exception')
+        if h is not None and not any(isinstance(x, ast.Raise) for x in ast.walk(h)):
+            contained[id(s)] = h
+    for s, t in stores:
+        if not (set(disp) & cfg.reach(cfg.nodes_of(s), include_src=False)):
+            continue          # dispatch does not follow it (a store after dispatch returned): not this rule's stretch
+        ok = id(s) in contained
+        how = 'inside a try whose handler for Exception lets nothing out'
+        if not ok:
+            for s0, t0 in stores:
+                h0 = contained.get(id(s0))
+                if h0 is None or s0 is s:
+                    continue
+                if cfg.must_pass(cfg.nodes_of(s0), cfg.entry, cfg.nodes_of(s)) and \
+                        not (set(cfg.nodes_of(s)) & cfg.reach(cfg.handler_nodes(h0), avoid=cfg.nodes_of(s0))):
+                    ok, how = True, 'only after the contained store %s has completed' % short(s0, 50)
+                    break
+        rep.check(rule, fkey(dw, 'store before dispatch: ' + norm(t)[:60]), ok,
+                  '%s runs %s' % (short(s, 60), how) if ok else
+                  '%s runs before dispatch outside every handler, also when the request object has just refused a store: a request type that '
+                  'does not take the assignment (read-only property, slots) makes it raise, and nothing between the WSGI entry point and '
+                  'dispatch turns that into a response -- the exception reaches the WSGI server' % short(s, 60), app, s)
+    if not stores:
+        rep.ok(rule, fkey(dw, 'no store before dispatch'), 'nothing is stored on the request object before dispatch is entered', app, dw.node)
+
+
+# ---------------------------------------------------------------------------------------------- R08.k: keywords of the error constructors
+def _keyword_fate(repo, cls, key):
+    """What happens to keyword ``key`` handed to ``cls(...)``, followed along the constructors of the MRO:
+    ('taken', init)    a constructor declares it as a parameter or pops it from its ** mapping;
+    ('ignored', init)  it arrives in a ** mapping that is neither handed on nor checked for leftovers;
+    ('rejected', init or None)  it arrives at a constructor without ** mapping that does not declare it (None: a
+                       builtin's), or at one that raises when its ** mapping has leftovers."""
+    from ..loader import ClassInfo
+    mro = repo.mro(cls)
+    i = 0
+    for _ in range(len(mro) + 2):
+        j = next((x for x in range(i, len(mro)) if isinstance(mro[x], ClassInfo) and '__init__' in mro[x].methods), None)
+        if j is None:
+            return 'rejected', None
+        init = mro[j].methods['__init__']
+        a = init.node.args
+        if key in [x.arg for x in a.args[1:] + a.kwonlyargs]:
+            return 'taken', init
+        if a.kwarg is None:
+            return 'rejected', init
+        kwn = a.kwarg.arg
+        for c in walk_body(init.node):
+            if isinstance(c, ast.Call) and norm(c.func) == '%s.pop' % kwn and c.args and isinstance(c.args[0], ast.Constant) and c.args[0].value == key:
+                return 'taken', init
+        for s in stmts_of(init.node):
+            if isinstance(s, ast.If) and norm(s.test) in (kwn, 'len(%s)' % kwn, 'len(%s) > 0' % kwn, '%s != {}' % kwn) and \
+                    any(isinstance(x, ast.Raise) for b in s.body for x in ast.walk(b)):
+                return 'rejected', init
+        fwd = [c for c in walk_body(init.node) if isinstance(c, ast.Call) and call_tail(c) == '__init__' and
+               any(k.arg is None and norm(k.value) == kwn for k in c.keywords)]
+        if not fwd:
+            return 'ignored', init
+        recv = fwd[0].func.value
+        if isinstance(recv, ast.Call) and call_name(recv) == 'super':
+            i = j + 1
+        else:
+            base = repo.resolve_class(init.mod, recv)
+            idx = [x for x in range(len(mro)) if mro[x] is base]
+            if not idx:
+                raise AnalysisError('%s: the constructor it hands its keywords to (%s) is not a base of %s' % (init.qualname, norm(recv), cls.name))
+            i = idx[0]
+    raise AnalysisError('%s: constructor chain not followed' % cls.name)
+
+
+def _star_keys(repo, fi, e, depth=0):
+    """The keys of the mapping ``fi`` passes as ``**e``: a dict display / dict(..) call, a local built from such (plus
+    item stores / .update with literal keys), or the function's own ** parameter -- then the keywords its callers in the
+    package pass beyond its declared parameters.  AnalysisError when a part of the mapping has keys that are not literal."""
+    from .. import layers
+    from ..astutil import names_stored
+    if depth > 3:
+        raise AnalysisError('%s: the ** mapping is handed on too many times to be followed' % fi.qualname)
+    a = fi.node.args
+    if isinstance(e, ast.Name) and a.kwarg is not None and e.id == a.kwarg.arg and \
+            not any(e.id in names_stored(s) for s in stmts_of(fi.node)):
+        declared = set(x.arg for x in a.posonlyargs + a.args + a.kwonlyargs)
+        keys, n = [], 0
+        for m in repo.all_internal_modules():
+            for caller in m.functions.values():
+                for c in walk_body(caller.node):
+                    if not (isinstance(c, ast.Call) and call_tail(c) == fi.node.name and caller is not fi):
+                        continue
+                    n += 1
+                    for k in c.keywords:
+                        if k.arg is None:
+                            keys.extend(_star_keys(repo, caller, k.value, depth + 1))
+                        elif k.arg not in declared:
+                            keys.append(k.arg)
+        if not n:
+            raise AnalysisError('%s: no caller found from which its ** parameter could be followed' % fi.qualname)
+        return sorted(set(keys))
+    lay = layers.layers_of_var(fi.node, e.id, 3) if isinstance(e, ast.Name) else layers.layers_of_expr(e)
+    keys = []
+    for l in lay:
+        if l.kind != 'literal':
+            raise AnalysisError('%s: the ** mapping %s takes keys from %s (not followed)' % (fi.qualname, norm(e)[:40], l.text[:40]))
+        keys.extend(l.keys or [])
+    if not lay:
+        raise AnalysisError('%s: the ** mapping %s is not a dict built in this function' % (fi.qualname, norm(e)[:40]))
+    return sorted(set(keys))
+
+
+def check_error_constructor_keywords(rep, rule):
+    """The error handler names, in class attributes (``server_error_type``, ``not_found_type``, ...), the HTTPException
+    classes the framework builds its own errors from, and the framework hands each of them a fixed set of keywords --
+    whatever class the slot holds.  Building the error happens where no handler is left to catch a TypeError (inside the
+    conversion of an uncaught exception, in the null route, in dispatch's strict-slash branch).  So every keyword a call of
+    such a slot passes is accepted by every class any handler of the family puts into that slot: along the constructors of
+    the MRO it is declared, popped, or ends in a ** mapping nobody checks -- never at a constructor that refuses it."""
+    repo = rep.repo
+    err = repo.mod(ERR)
+    ehc = err.cls('ErrorHandler')
+    http = err.cls('HTTPException')
+    fam = [ehc] + repo.subclasses(ehc)
+    slots = {}
+    for c in fam:
+        for name, val in c.class_attrs.items():
+            if isinstance(val, ast.Name):
+                k, m, obj = repo.resolve(c.mod, val.id)
+                if k == 'class' and any(x is http for x in repo.mro(obj)):
+                    if not any(o is obj for _, o in slots.get(name, [])):
+                        slots.setdefault(name, []).append((c, obj))
+    if not slots:
+        raise AnalysisError('ErrorHandler family: no class attribute naming an HTTPException class found')
+    n_sites = 0
+    for m in repo.all_internal_modules():
+        for fi in m.functions.values():
+            for c in walk_body(fi.node):
+                if not isinstance(c, ast.Call):
+                    continue
+                f = resolve_local(fi.node, c.func)
+                if not (isinstance(f, ast.Attribute) and f.attr in slots):
+                    continue
+                n_sites += 1
+                keys = [k.arg for k in c.keywords if k.arg is not None]
+                for k in c.keywords:
+                    if k.arg is None:
+                        keys.extend(x for x in _star_keys(repo, fi, k.value) if x not in keys)
+                for hc, ec in slots[f.attr]:
+                    bad = []
+                    for key in keys:
+                        fate, init = _keyword_fate(repo, ec, key)
+                        if fate == 'rejected':
+                            bad.append('%s (refused by %s)' % (key, init.qualname if init is not None else 'a builtin constructor'))
+                    rep.check(rule, '%s::%s(..)::%s' % (fi.key, f.attr, ec.name), not bad,
+                              '%s accepts the keywords %s passes to %s (%s)' % (ec.name, fi.qualname, f.attr, ', '.join(keys) or 'none') if not bad else
+                              '%s builds its error with %s(%s), and %s -- the %s of %s -- refuses %s: with that handler configuration the '
+                              'TypeError is raised while the error response is being built, where nothing is left to catch it, and reaches the '
+                              'WSGI server instead of a 500 / 404 / 405' % (fi.qualname, f.attr, ', '.join('%s=' % k_ for k_ in keys), ec.name, f.attr, hc.name,
+                                                                          '; '.join(bad)), m, c)
+    if n_sites < 3:
+        raise AnalysisError('calls of the error type slots (%s) not found (%d, floor 3)' % (', '.join(sorted(slots)), n_sites))
